@@ -37,6 +37,8 @@ Housekeeping == {"clusterState", "unsyncedStartTime", "lastUnsyncedLogTime", "ha
 \* classes that may differ across a SIMULATION: none of the statement's list.  (GetPendingPods, which every simulation
 \* calls, deliberately records a scheduling decision for pending pods that fail validation - pod bookkeeping.)
 SimLenient == [s \in Sections |-> IF s = "cache" THEN PodBookkeeping \cup Housekeeping ELSE {}]
+\* StaticDrift.ComputeCommands simulates nothing but reserves static capacity in Cluster.NodePoolState (C03's protocol)
+ReservingLenient == [s \in Sections |-> IF s = "cache" THEN SimLenient[s] \cup {"NodePoolState"} ELSE SimLenient[s]]
 \* classes that may differ across a PROVISIONING PASS before it creates NodeClaims: nominations and pod bookkeeping
 \* (incl. the capacity-buffer placement counts, which the pass rebuilds wholesale)
 PassAllowed == [s \in Sections |-> CASE s = "cache" -> PodBookkeeping \cup Housekeeping \cup {"bufferPodCounts"}
